@@ -47,6 +47,25 @@ We use it to log cache accesses but not spam at log level DEBUG.
 """
 
 
+def _copy_tree(tree: Tree) -> Tree:
+    """
+    Returns a deep copy of the tree (new tree, children lists and tokens on every level) without recursion:
+    copy.deepcopy exceeds the recursion limit for deeply nested expressions.
+    """
+    result = type(tree)(tree.data, [], tree._meta)  # pylint:disable=protected-access
+    stack = [(tree, result)]
+    while stack:
+        source, target = stack.pop()
+        for child in source.children:
+            if isinstance(child, Tree):
+                child_copy = type(child)(child.data, [], child._meta)  # pylint:disable=protected-access
+                target.children.append(child_copy)
+                stack.append((child, child_copy))
+            else:
+                target.children.append(copy.deepcopy(child))
+    return result
+
+
 def tree_copy(lru_cached_parsing_func: Callable[[str], Tree]):
     """
     A decorator that returns copy of the cached result from the lru_cached_parsing_func.
@@ -65,7 +84,7 @@ def tree_copy(lru_cached_parsing_func: Callable[[str], Tree]):
         cache_size_after_parsing = lru_cached_parsing_func.cache_info().currsize
         if cache_size_after_parsing == cache_size_before_parsing:
             parsing_logger.log(_CACHE_LOG_LEVEL, "The parsed tree for '%s' has been loaded from the cache", args[0])
-        return copy.deepcopy(tree_result)
+        return _copy_tree(tree_result)
 
     return decorated
 
